@@ -113,6 +113,18 @@ PROPS = {
           'Non-trivial: a reuse after discard/kill happened, or >=2 concurrent scanners.',
           nbatch=(16, 16), timeout=(900, 3400),
           must_observe=['derived_runs_ok', 'recomputations_after_discard_or_loss', 'scans_ok', 'concurrent_scan_groups']),
+ 'C06': P('fault_enumeration',
+          'cases = (executor in {local p=1, local p=4, testsystem, testsystem+machine combiners}, call site in {readerfunc, scanreader open, '
+          'writerfunc, map, filter, flatmap, fold, reduce combiner, repartition function, scan callback}, mode in {error, temporary error, panic, '
+          'out-of-range partition} as applicable to the site, persistent | one-shot, position in {first call, call 127/128/129, last call}). '
+          'thorough = the full product (~680 cases); quick = one position per (site, mode, persistence, executor) (~140). A failure-free dry run '
+          'on the same session fixes the reference rows and the number of calls, from which the failing call index is derived. Oracle: persistent '
+          'failure => Run returns an error carrying the message (reader/writer/scan errors, every panic); one-shot temporary failure => success with '
+          'reference rows; any success => reference rows (no partial result); calls <= 8x failure-free calls + 50; a trivial run on the same session '
+          'afterwards succeeds; the child process survives (journal attribution otherwise); Run returns (watchdog => inconclusive). '
+          'Non-trivial: the failing call index was actually reached.',
+          nbatch=(16, 16), timeout=(900, 3400),
+          must_observe=['persistent_failures_reported', 'one_shot_failures_recovered', 'sessions_reused_after_failure']),
 }
 
 META = {
@@ -183,4 +195,10 @@ META = {
     note='Because the value of a result never changes, the per-operation oracle is equivalent to a linearizability check against a constant '
          'register, so porcupine is not needed here. After a machine kill the documented give-up errors are counted, not flagged.',
     technique='history-based runtime monitoring at the API boundary with a reference evaluator'),
+ 'C06': dict(
+    text='Fault enumeration over the user-function call sites: failures are scripted inside the real user functions of real runs; the outcome of '
+         'Run, the survival of the driver process, the invocation count and the usability of the session afterwards are observed.',
+    note='Which of the three reduce-combiner sites a given call index hits depends on the executor; first/boundary/last indices cover the '
+         'task-local table and the consumer-side merge, machine-combiner sessions the shared buffer.',
+    technique='fault injection in user callbacks with outcome, crash and invocation-count monitors'),
 }
